@@ -1497,8 +1497,15 @@ class BinaryOperator(SymbolicExpression, ABC):
         """
         cache = self._cache_ if cache is None else cache
         entered = False
+        replayed = set()
         for output, is_false in cache.retrieve(variables_sources):
             entered = True
+            # one row can be stored twice: once by an evaluation that had bound fewer of the keys (the entry leaves them open)
+            # and once by one that had bound them. Merged into the lookup both are the same row: it is replayed once.
+            row = (frozenset((k, v.id_) for k, v in output.items()), is_false)
+            if row in replayed:
+                continue
+            replayed.add(row)
             self._is_false_ = is_false
             cache_match_count.values[self._node_.name] += 1
             if is_false and not yield_when_false:
